@@ -1,6 +1,7 @@
 (* Property C11 — dialect clauses are captured under their key, orthogonal to the table body (placement part). *)
 From Coq Require Import String Ascii List ZArith NArith Bool.
-From SDP Require Import Base PyStr Actions Output OutputProofs FieldsFacts Clauses ClauseProofs.
+From SDP Require Import Base PyStr Lexer Actions Parse Output OutputProofs FieldsFacts Clauses ClauseProofs.
+From SDP Require Table TableClauseProofs.
 From SDP.Gen Require Fields.
 Import ListNotations.
 Open Scope string_scope.
@@ -36,3 +37,51 @@ Example C11_example :
   | _, _ => false
   end = true.
 Proof. vm_compute. reflexivity. Qed.
+
+(* ---------- the grammar side for seven clauses, any number, subset and order ---------------------------------------------------------------
+   For EVERY statement  CREATE TABLE ... ( columns [, table-level clauses] )  clause*  with
+     clause = TABLESPACE n | STORED AS f | LOCATION 'p' | ENGINE = e | COMMENT = 'c' | USING f | IN n
+   (any number, any subset, any order, repetitions included; TABLESPACE x directly followed by IN is excluded: the grammar reads
+   that pair as one clause) the model — real keyword tables and flag logic, real LALR tables (276-configuration invariant),
+   modelled actions — returns the entity of the clause-free statement with, for every clause in order, the clause's key set to
+   the clause's value ([Table.denote_x]). *)
+Theorem C11_clauses_after_the_table_exact : forall tx norm silent, Table.wf_x norm tx = true ->
+  exists d, Table.denote_x norm tx = Ok d /\ parse_lexemes norm silent (Table.lexemes_x tx) = Ok (Some (PDict d)).
+Proof. exact TableClauseProofs.table_x_parse. Qed.
+Print Assumptions C11_clauses_after_the_table_exact.
+
+(* orthogonality at the parser stage: a clause sets its own key to its declared value ... *)
+Theorem C11_clause_sets_its_key : forall norm d c,
+  dict_get (Table.clause_apply norm d c) (Table.clause_key c) = Some (Table.clause_value norm c).
+Proof. exact TableClauseProofs.clause_sets_its_key. Qed.
+Print Assumptions C11_clause_sets_its_key.
+(* ... the table body and every other clause's key are untouched by any list of clauses that do not own the key ... *)
+Theorem C11_clauses_keep_the_body : forall norm k cl d, Forall (fun c => Table.clause_key c <> k) cl ->
+  dict_get (fold_left (Table.clause_apply norm) cl d) k = dict_get d k.
+Proof. exact TableClauseProofs.clauses_keep_the_body. Qed.
+Print Assumptions C11_clauses_keep_the_body.
+(* ... and a clause's value is reported whatever comes before it and whatever clauses with OTHER keys come after it *)
+Theorem C11_clause_value_reported : forall norm before c after d,
+  Forall (fun c' => Table.clause_key c' <> Table.clause_key c) after ->
+  dict_get (fold_left (Table.clause_apply norm) (before ++ c :: after) d) (Table.clause_key c) = Some (Table.clause_value norm c).
+Proof. exact TableClauseProofs.clause_value_reported. Qed.
+Print Assumptions C11_clause_value_reported.
+
+(* non-vacuity: five clauses in an arbitrary order after a two-column table with a table-level key, through the whole statement pipeline *)
+Definition ex_tx : Table.tablex :=
+  Table.mkTableX
+    (Table.mkTableC (Table.mkTable "CREATE" "TABLE" None "t" (Table.mkCol "a" "int" None None []) [Table.mkCol "b" "text" None None []])
+                    [Table.TIPk None "PRIMARY" "KEY" ("a", [])])
+    [Table.CEngine "engine" "InnoDB"; Table.CLocation "LOCATION" "'s3://b/p'"; Table.CTablespace "tablespace" "ts1";
+     Table.CComment "Comment" "'tbl'"; Table.CStored "stored" "AS" "TEXTFILE"].
+Definition ex_tx_text : string :=
+  "CREATE TABLE t ( a int , b text , PRIMARY KEY ( a ) ) engine = InnoDB LOCATION 's3://b/p' tablespace ts1 Comment = 'tbl' stored AS TEXTFILE ".
+Example C11_clauses_example :
+  Table.wf_x false ex_tx = true /\ scan ex_tx_text = Ok (Table.lexemes_x ex_tx) /\
+  match Table.denote_x false ex_tx with
+  | Ok d => match parse_statement false false ex_tx_text with Ok (Some v) => Output.pyval_eqb v (PDict d) | _ => false end
+            && Output.pyval_eqb (get_or_none d "engine") (PStr "InnoDB") && Output.pyval_eqb (get_or_none d "location") (PStr "'s3://b/p'")
+            && Output.pyval_eqb (get_or_none d "primary_key") (PList [PStr "a"])
+  | _ => false
+  end = true.
+Proof. vm_compute. repeat split. Qed.
